@@ -20,9 +20,10 @@ ID = "C06"
 TITLE = "History report attributes every matching commit to the right build per branch"
 TECHNIQUE = "bounded exhaustive enumeration of commit histories against a reachability reference model"
 DESIGN_REF = "§2 C06"
-LEVEL_TEXT = ("Every history with up to 4 commits (thorough: 5) under 1-3 branch heads (4 heads up to 3 commits; "
-              "thorough 4 commits), all tag and match placements, is run through the real report builder and "
-              "printer and compared with an independent reachability model of the statement.")
+LEVEL_TEXT = ("Every history with up to 4 commits under 1-3 branch heads and up to 3 commits under 4 heads (thorough: "
+              "4 commits under 4 heads, 5 commits under 1-2 heads, 5 commits under 3 heads with at most 2 tagged and 2 "
+              "matching commits), all tag and match placements, is run through the real report builder and printer "
+              "and compared with an independent reachability model of the statement.")
 LEVEL_NOTE = ("Small-scope: histories with more commits, octopus merges, several tags on one commit, other tag "
               "formats / VERSION files, the obsolete-branch cut-off (dates are kept inside the 30-day window as the "
               "property says) are not explored. Trusted: the reference model and the fake repository in "
@@ -48,7 +49,7 @@ B4 = ("release/1.0", "release/2.0", "release/10.0", "master")
 
 # group = (n, branch names, number of shards, (max matching, max tagged) or None, printed-report mode)
 #   printed-report mode: "all" = every history is printed and parsed back; "distinct" = once per distinct
-#   report structure per worker process (the formatter receives nothing but the report data)
+#   report structure per shard (the formatter receives nothing but the report data)
 _GROUPS = {
     "quick": [(1, B2, 1, None, "all"), (2, B2, 1, None, "all"), (1, B3, 1, None, "all"), (2, B3, 1, None, "all"),
               (3, B1, 1, None, "all"), (3, B2, 1, None, "all"), (3, B3, 2, None, "all"), (3, B4, 6, None, "all"),
@@ -147,6 +148,7 @@ def _outcome(observed, problems):
 def run_shard(shard, tier, seed, acc):
     _tier, gi, j = shard
     n, names, k, lim, printed_mode = _GROUPS[tier][gi]
+    _PRINT_SEEN.clear()             # per shard, so that what is printed does not depend on worker scheduling
     dags = _dags(n)
     full = (1 << (n + 1)) - 2
     ids = list(range(1, n + 1))
